@@ -1140,27 +1140,29 @@ def directed_cases(ex):
     for name in ('empty', 'stale'):
         init = INITS[name]
         n_a = len(solo_steps(ex, init, 'store', 7))
-        n_l = len(solo_steps(ex, INITS['fresh'], 'load', 7))
+        # (which initial entry a load accepts depends on the freshness test: newer, or equal mtime)
+        n_l = max(len(solo_steps(ex, INITS[i], 'load', 7)) for i in ('fresh', 'equal'))
         for held in (1, 2):
             if n_a <= held:
                 continue
             for tick in (True, False):
                 for k in range(n_l + 1):
-                    evs = [['spawn', 0, 'store', 7]] + [['step', 0]] * (n_a - held) + [['modify', tick]]
+                    evs = [['spawn', 0, 'store', 7]] + [['step', 0]] * (n_a - held) + [['modify', tick], ['tick']]
                     evs += [['spawn', 1, 'store', 7]] + [['step', 1]] * (n_a + 2)
                     evs += [['spawn', 2, 'load', 7]] + [['step', 2]] * k + [['step', 0]] * held
                     evs += [['step', 2]] * (n_l + 1 - k)
                     out.append({'init': init, 'evs': with_late_load(evs, 7), 'origin': 'directed:late-publish'})
-    init = INITS['fresh']
-    n_c = len(solo_steps(ex, init, 'check', 8))
-    for j in range(1, n_c + 1):
-        for crash in (True, False):
-            evs = [['spawn', 0, 'check', 8]] + [['step', 0]] * j + ([['crash', 0]] if crash else [])
-            evs += [['spawn', 1, 'check', 8]] + [['step', 1]] * (n_c + 1)
-            evs += [['spawn', 2, 'load', 8]] + [['step', 2]] * 6
-            if not crash:
-                evs += [['step', 0]] * (n_c + 1 - j)
-            out.append({'init': init, 'evs': with_late_load(evs, 8), 'origin': 'directed:version-change'})
+    for name in ('fresh', 'equal'):
+        init = INITS[name]
+        n_c = len(solo_steps(ex, init, 'check', 8))
+        for j in range(1, n_c + 1):
+            for crash in (True, False):
+                evs = [['spawn', 0, 'check', 8]] + [['step', 0]] * j + ([['crash', 0]] if crash else [])
+                evs += [['spawn', 1, 'check', 8]] + [['step', 1]] * (n_c + 1)
+                evs += [['spawn', 2, 'load', 8]] + [['step', 2]] * 6
+                if not crash:
+                    evs += [['step', 0]] * (n_c + 1 - j)
+                out.append({'init': init, 'evs': with_late_load(evs, 8), 'origin': 'directed:version-change'})
     return out
 
 
